@@ -48,7 +48,7 @@ func c05CallStmt(recv, old, prefix string, gap ...string) jg.Stmt {
 func c05Gen(c *engine.C) engine.Case {
 	layout, _ := pickLayout(c)
 	oldName := []string{"process", "p", "processTheWholeOrderAndShipItNow"}[c.Choose(3, "old-name")]
-	newName := []string{"handle", "processItem", "h", "handleTheWholeOrderAndShipItNowPlease", "proceed"}[c.Choose(5, "new-name")]
+	newName := []string{"handle", "processItem", "h", "handleTheWholeOrderAndShipItNowPlease", "proceed", "préparer", "handle$2"}[c.Choose(7, "new-name")]
 	// text between a method name and its opening parenthesis, at declarations and at call sites
 	gap := []string{"", " ", " /* first */ "}[c.Choose(3, "between-name-and-parenthesis")]
 	if gap != "" {
